@@ -188,6 +188,34 @@ Fixpoint fetch_all (obj : bytes) (S lastOff lastLen : Z) (known : list Z) (ms : 
       end
   end.
 
+(* ---- the same with a faulty bucket: the BODY of every underlying GetRange issued by this
+   operation ends after [cut] bytes (reader returns fewer bytes than requested, then EOF).
+   io.ReadFull then fails (io.ErrUnexpectedEOF, or io.EOF when nothing was read) unless the
+   buffer was filled; a failed fetch makes fetchMissingSubranges return the error. *)
+Definition cut_body (cut : Z) (data : bytes) : bytes := slice data 0 (Z.min cut (blen data)).
+
+Definition fetch_one_f (cut : Z) (obj : bytes) (S lastOff lastLen : Z) (known : list Z) (m : rng)
+           (h : hmap) (stored : list (Z * bytes)) : option (hmap * list (Z * bytes)) :=
+  let '(m_start, m_end) := m in
+  let data := cut_body cut (under_get_range obj m_start (m_end - m_start)) in
+  let bufSize := if buf_full_cond lastOff m_end then buf_size_full m_start m_end
+                 else buf_size_last m_start m_end S lastLen in
+  if (bufSize <? 0) || (blen data <? bufSize) then None     (* io.ReadFull: the error is returned, nothing is cut or stored *)
+  else
+    let buf := slice data 0 bufSize in
+    cut_subranges (Z.to_nat (Z.quot (m_end - m_start + S - 1) S)) m_start m_start S lastOff lastLen buf known h stored.
+
+Fixpoint fetch_all_f (cut : Z) (obj : bytes) (S lastOff lastLen : Z) (known : list Z) (ms : list rng)
+         (h : hmap) (stored : list (Z * bytes)) : option (hmap * list (Z * bytes)) :=
+  match ms with
+  | [] => Some (h, stored)
+  | m :: r =>
+      match fetch_one_f cut obj S lastOff lastLen known m h stored with
+      | None => None
+      | Some (h', st') => fetch_all_f cut obj S lastOff lastLen known r h' st'
+      end
+  end.
+
 Record cfg := { c_S : Z; c_M : Z; c_maxsize : Z }.
 
 (* what one operation produced: result, GetRange calls that reached the underlying
@@ -236,6 +264,52 @@ Definition get_range (g : cfg) (w : world) (c : cache) (hits : list key) (name :
         | None => None
         | Some merged =>
             match fetch_all obj S lastOff lastLen offs merged h0 [] with
+            | None => None
+            | Some (h, st) => Some (h, st, map (fun m : rng => (fst m, snd m - fst m)) merged)
+            end
+        end
+      else Some (h0, [], []) in
+    match fetched with
+    | None => ((RErr, [], st1), c1)
+    | Some (h, st, calls) =>
+        let c2 := fold_left (fun c (p : Z * bytes) => store c (KSub name (fst p) (subrange_end (fst p) S size)) (VBytes (snd p))) st c1 in
+        let keys := map (fun p : Z * bytes => KSub name (fst p) (subrange_end (fst p) S size)) st in
+        ((read_loop (Datatypes.S (List.length offs)) S h offset length [], calls, st1 ++ keys), c2)
+    end
+  end.
+
+(* cachedGetRange over the faulty bucket: identical text, fetches go through [fetch_all_f] *)
+Definition get_range_f (cut : Z) (g : cfg) (w : world) (c : cache) (hits : list key) (name : N) (offset length : Z)
+  : outcome * cache :=
+  let S := c_S g in
+  if (offset <? 0) || (length <=? 0) then ((RUnmodelled, [], []), c)
+  else
+  let '(osz, c1, st1) := cached_attributes w c hits name in
+  match osz, find_obj w name with
+  | None, _ => ((RErr, [], st1), c1)
+  | Some _, None => ((RUnmodelled, [], st1), c1)     (* attributes cached for an object that does not exist *)
+  | Some size, Some obj =>
+    if past_end_cond offset size then
+      ((RBytes (under_get_range obj offset length), [(offset, length)], st1), c1)
+    else
+    let length := if clamp_cond offset length size then clamped_length offset size else length in
+    let startR := start_range offset S in
+    let endR := if bump_cond offset length S then end_range0 offset length S + S else end_range0 offset length S in
+    let lastOff := if last_clamp_cond endR size then last_off_clamped size S else last_off_default endR S in
+    let lastLen := if last_clamp_cond endR size then last_len_clamped size lastOff else last_len_default S in
+    let offs := sub_offsets startR endR S in
+    let h0 : hmap :=
+      flat_map (fun off => match fetch c1 hits (KSub name off (subrange_end off S size)) with
+                           | Some (VBytes (x :: b)) => [(off, x :: b)]
+                           | _ => []
+                           end) offs in
+    let fetched :=
+      if Z.of_nat (List.length h0) <? Z.of_nat (List.length offs) then
+        let missing := flat_map (fun off => match hget h0 off with None => [(off, off + S)] | Some _ => [] end) offs in
+        match merge_loop (Datatypes.S (List.length offs)) (merge_ranges missing 0) S (c_M g) with
+        | None => None
+        | Some merged =>
+            match fetch_all_f cut obj S lastOff lastLen offs merged h0 [] with
             | None => None
             | Some (h, st) => Some (h, st, map (fun m : rng => (fst m, snd m - fst m)) merged)
             end
@@ -320,7 +394,13 @@ Inductive op :=
 
 Definition step (g : cfg) (w : world) (c : cache) (o : op) (hits : list key) (truth : list N) : outcome * cache :=
   match o with
-  | OGetRange n off len => get_range g w c hits n off len
+  | OGetRange n off len =>
+      (* a fault during this operation is recorded in the (otherwise unused) listing field:
+         [cut] = every underlying body of this operation ends after cut bytes *)
+      match truth with
+      | [cut] => get_range_f (Z.of_N cut) g w c hits n off len
+      | _ => get_range g w c hits n off len
+      end
   | OGet n chunk => get g w c hits n chunk
   | OExists n => exists_ w c hits n
   | OAttr n => attributes w c hits n
@@ -364,19 +444,24 @@ Definition zz_eqb (p q : Z * Z) : bool := (fst p =? fst q) && (snd p =? snd q).
 Definition keyset_eqb (a b : list key) : bool :=
   forallb (fun k => mem_key k b) a && forallb (fun k => mem_key k a) b.
 
+Definition is_faulty (o : op) (truth : list N) : bool :=
+  match o, truth with OGetRange _ _ _, [_] => true | _, _ => false end.
+
 Fixpoint run_corr (g : cfg) (w : world) (c : cache) (l : list obs) : bool :=
   match l with
   | [] => true
   | (o, hits, truth, impl, _, calls, stores) :: r =>
       let '((res, mcalls, mstores), c') := step g w c o hits truth in
-      result_eqb res impl && list_eqb zz_eqb mcalls calls && keyset_eqb mstores stores
+      result_eqb res impl
+      && (is_faulty o truth && result_eqb res RErr || list_eqb zz_eqb mcalls calls)
+      && keyset_eqb mstores stores
       && run_corr g w c' r
   end.
 
 Definition corr_ok (c : case) : bool :=
   match c with
   | CHist sr msr maxsize objs ops =>
-      get_range_order_ok && run_corr {| c_S := sr; c_M := msr; c_maxsize := maxsize |} objs [] ops
+      get_range_order_ok && read_full_err_test_ok && run_corr {| c_S := sr; c_M := msr; c_maxsize := maxsize |} objs [] ops
   end.
 
 (* the property on the implementation's own observables: every answer through the
@@ -388,5 +473,6 @@ Definition pred_ok (c : case) : bool :=
   | CHist _ _ _ objs ops =>
       forallb (fun x : obs =>
                  let '(o, _, truth, impl, under, _, _) := x in
-                 result_eqb impl under && result_eqb (reference objs o truth) under) ops
+                 (result_eqb impl under || (is_faulty o truth && result_eqb impl RErr))
+                 && result_eqb (reference objs o truth) under) ops
   end.
